@@ -158,13 +158,21 @@ impl World {
         self.lease_t0 = self.now;
         self.lease_renew_seen = false;
         self.lease_rebind_seen = false;
-        // clause 3 applies to leases whose ACK carried no T1/T2 or ordered T1 < T2 < lease
+        // clause 3 applies to leases whose ACK carried no T1/T2 or both. When both are there but are not
+        // ordered T1 < T2 < (effective, i.e. capped) lease - inverted, equal, 2^32-1, or beyond a lease
+        // that set_max_lease_duration shortened - the client still has to renew before it rebinds
+        // before the lease ends (parse_ack documents the fall-back to T1 = lease/2, T2 = 7/8 lease);
+        // only the instants differ, and the liveness rules do not depend on them. A single option
+        // (RFC 2131 is silent) or a zero T1/T2 (renew and rebind at the same instant) stay outside.
         self.lease_ordered = !a.ambiguous
             && match (a.t1, a.t2) {
                 (None, None) => true,
-                (Some(t1), Some(t2)) => (t1 as i64) < t2 as i64 && (t2 as i64) * SEC < a.lease_us,
+                (Some(t1), Some(t2)) => ((t1 as i64) < t2 as i64 && (t2 as i64) * SEC < a.lease_us) || (t1 != 0 && t2 != 0),
                 _ => false,
             };
+        if !a.ambiguous && matches!((a.t1, a.t2), (Some(t1), Some(t2)) if t1 != 0 && t2 != 0 && !((t1 as i64) < t2 as i64 && (t2 as i64) * SEC < a.lease_us)) {
+            self.unusable_t1_t2_leases += 1;
+        }
         self.lease_clean = clean_ok && !a.ambiguous && self.routable;
         // no leftover of an earlier neighbour wait (the caller updates this for the current poll afterwards)
         self.lease_gate_free = self.now >= self.gate_until;
